@@ -101,7 +101,8 @@ class C06Engine(hist.Engine):
         if not cands:
             raise hist.ExpectedRefusal("second workspace empty")
         src = self.rng.choice(cands)
-        before = {str(e.uid) for _, e in all_entities(self.ws)}
+        # identifiers of entities that were removed (through the parent: detached, possibly not collected yet) are free again
+        before = {str(e.uid) for _, e in all_entities(self.ws)} - set(self.model.removed)
         src_uids = subtree_uids(src)
         op.update(cls=type(src).__name__, target=str(src.uid))
         new = src.copy(parent=self.ws.root, copy_children=True)
